@@ -40,6 +40,9 @@ _H = [
     ("lifecycle_glue_ok_unit_err", "same, Result<Glue, ()> (the DiplomatOption shape)", [F_FROM_RES, F_INTO_RES, F_DROP], 4, ["C03"]),
     ("lifecycle_plain_plain", "same, no drop glue at all: nothing dropped", [F_FROM_RES, F_INTO_RES, F_DROP], 4, ["C03"]),
     ("lifecycle_glue_glue", "same, drop glue on both arms", [F_FROM_RES, F_INTO_RES, F_DROP], 4, ["C03"]),
+    ("lifecycle_unit_ok_zst_glue_err", "same, Result<(), Z> with a ZERO-SIZED error type that has drop glue (token / guard type): dropped exactly once", [F_FROM_RES, F_INTO_RES, F_DROP], 4, ["C03"]),
+    ("lifecycle_zst_glue_ok_unit_err", "same, zero-sized Ok payload with drop glue", [F_FROM_RES, F_INTO_RES, F_DROP], 4, ["C03"]),
+    ("lifecycle_plain_ok_zst_glue_err", "same, plain Ok payload and zero-sized error type with drop glue", [F_FROM_RES, F_INTO_RES, F_DROP], 4, ["C03"]),
     ("wire_encoding_primitives", "{payload,is_ok}: flag offset = max payload size rounded, size/align per repr(C), unit arms occupy no payload, round trip identity on (arm,payload) for 11 (T,E) pairs", [F_FROM_RES, F_INTO_RES], None, ["C10", "C01"]),
     ("wire_option_flag", "DiplomatOption<u32/u64>: is_ok == is_some and round trip", [F_FROM_OPT, F_INTO_OPT], None, ["C10"]),
     ("wire_pointer_niche", "Option<&T>/Option<Box<T>>: None is the null pointer, Some is non-null, pointer sized", [], None, ["C10"]),
